@@ -15,7 +15,8 @@ inputs, by a simulation between the explicit stacks / work arrays and the recurs
   pruned (`tmp_sum <= best_sum`): on exact ties it keeps the LAST optimal assignment found,
   `do_recur` the FIRST (`numba_tie_witness`).  So assignment equality is FALSE; proved instead:
   `numba_eq_solveL` (the kernel computes exactly the recursion `goL`, with its iteration count),
-  `numba_admissible`, `numba_optimal`, `numba_cost_eq_solve` (same optimal COST as `do_recur`).
+  `numba_admissible`, `numba_optimal`, `numba_cost_eq_solve` (same optimal COST as `do_recur`),
+  `numba_eq_solve_of_unique` (same ASSIGNMENT whenever the optimum is unique).
 * fuel: `nonrec_fuel`, `numba_fuel` — the loops stop after `nonrecSteps cl` / `numbaSteps cl`
   iterations, both `≤ levelBound cl` (`steps_le_levelBound`), an explicit function of the
   candidate-list lengths; every fuel `≥ levelBound cl` gives the same answer, so fuel exhaustion
@@ -163,6 +164,31 @@ theorem numba_cost_eq_solve (cl : List Src) (hne : cl ≠ []) (hs : AllSorted cl
     rw [hO]
     have : c' = c := by have := ad.2; have := ad'.2; omega
     simp [projBest, this]
+
+/-- when the optimum is unique the kernel returns the very assignment `do_recur` returns -/
+theorem numba_eq_solve_of_unique (cl : List Src) (hne : cl ≠ []) (hs : AllSorted cl)
+    (huniq : ∀ a b, IsOptimal cl a → IsOptimal cl b → a = b)
+    (c : Nat) (a : List Cand) (h : solveOrdered cl = some (c, a)) :
+    ∃ n, numbaLoop cl = some (some c, a.map (·.1), n) := by
+  have ad := solveOrdered_admissible cl c a h
+  have opt : IsOptimal cl a := by
+    refine ⟨ad.1, fun b hb => ?_⟩
+    obtain ⟨c1, a1, h1, hle⟩ := solveOrdered_optimal cl hne hs b hb
+    rw [h] at h1; cases h1
+    rw [ad.2]; exact hle
+  obtain ⟨c', a', hL, _⟩ := solveL_optimal cl hne hs a ad.1
+  have ad' := solveL_admissible cl c' a' hL
+  have opt' : IsOptimal cl a' := by
+    refine ⟨ad'.1, fun b hb => ?_⟩
+    obtain ⟨c1, a1, h1, hle⟩ := solveL_optimal cl hne hs b hb
+    rw [hL] at h1; cases h1
+    rw [ad'.2]; exact hle
+  have e := huniq a a' opt opt'
+  subst e
+  refine ⟨numbaSteps cl, ?_⟩
+  rw [numba_eq_solveL cl hne, hL]
+  have : c' = c := by rw [← ad.2, ← ad'.2]
+  simp [projBest, this]
 
 /-! ## non-vacuity and the tie witness (tests, labelled as such) -/
 
